@@ -141,15 +141,19 @@ def pg_dmm_slm(seq, V, St, w):
     if St(2):
         seq.config_detuning_map(detuning_map=_prog_detmap(seq, w, "m1"), dmm_id="dmm_1")
     seq.add(Pulse.ConstantPulse(V(0, 100, True), V(1, 1.0), 0.0, 0.0), "g")
+    slm_dmm = "dmm_1" if (St(8) and not (St(1) or St(2))) else "dmm_0"  # the mask on the device's SECOND DMM
     if St(3) and not St(0):
-        seq.config_slm_mask(qubits=[Q(1), Q(2)], dmm_id="dmm_0")  # after a pulse
+        if St(8):
+            seq.config_slm_mask([Q(1), Q(2)], slm_dmm)  # after a pulse; positional (the decoder re-issues the call with keywords)
+        else:
+            seq.config_slm_mask(qubits=[Q(1), Q(2)], dmm_id=slm_dmm)  # after a pulse; by keyword
     if St(1) or St(2):
         if St(4):
             seq.add_dmm_detuning(ConstantWaveform(V(2, 100, True), V(3, -2.0)), "dmm_1")
         else:
             seq.add_dmm_detuning(waveform=RampWaveform(60, V(3, -2.0), 0.0), dmm_name="dmm_1", protocol="min-delay")
     if St(7) and St(3) and not St(0):
-        seq.add_dmm_detuning(ConstantWaveform(100, -1.0), "dmm_0")  # more detuning on the DMM that carries the SLM mask
+        seq.add_dmm_detuning(ConstantWaveform(100, -1.0), slm_dmm)  # more detuning on the DMM that carries the SLM mask
     if St(5):
         seq.declare_channel("r", "rydberg_local", [Q(0), Q(1)])  # declared late, multi target
         seq.add(Pulse.ConstantPulse(52, 1.0, 0.0, 0.0), "r", "no-delay")
@@ -209,7 +213,7 @@ def pg_arbphase(seq, V, St, w):
                       detuning=RampWaveform(duration=V(4, 120, True), start=V(6, 5.0), stop=0.0), phase=0.5, post_phase_shift=0.25), channel="g")
 
 
-PROGRAMS = {"styles": (pg_styles, 16), "eom": (pg_eom, 9), "dmm_slm": (pg_dmm_slm, 8), "xy": (pg_xy, 5), "arbphase": (pg_arbphase, 9)}
+PROGRAMS = {"styles": (pg_styles, 16), "eom": (pg_eom, 9), "dmm_slm": (pg_dmm_slm, 9), "xy": (pg_xy, 5), "arbphase": (pg_arbphase, 9)}
 
 REGS = ["2d", "2d-layout", "3d", "3d-layout", "mappable", "mappable-3d"]  # {2D, 3D} x {plain, from a layout, mappable}
 DEVS = ["virtual", "MockDevice", "custom-physical", "builtin-name-other-specs", "builtin-name-virtual"]
@@ -531,6 +535,21 @@ def run_c08prog(name, chosen_t, mappable):
                 s1, s2 = snapshot.snap(b1, False), snapshot.snap(b2, False)
                 if norm(s1) != norm(s2):
                     out.append((f"C04:decoded-build-differs:{codec}:c08-{name}:{_diff(s1, s2)}:{kinds}", f"{chosen} assignment {tag}"))
+                # the BUILT sequence is a sequence like any other: it is exported and decoded too (its record holds the values the
+                # variables were given, in whatever container the build left them)
+                if tag == "A" and not mappable:
+                    try:
+                        bdoc = b1.to_abstract_repr() if codec == "abstract" else b1._serialize()
+                        if codec == "abstract":
+                            err = own_validate(json.loads(bdoc))
+                            if err:
+                                out.append((f"C04:schema-invalid:built:c08-{name}", f"{chosen}: {err}"))
+                        b3 = Sequence.from_abstract_repr(bdoc) if codec == "abstract" else Sequence._deserialize(bdoc)
+                        if norm(snapshot.snap(b3, False)) != norm(s1):
+                            out.append((f"C04:decoded-built-sequence-differs:{codec}:c08-{name}:{kinds}", f"{chosen}"))
+                    except Exception as e:
+                        if "No abstract representation for" not in str(e):
+                            out.append((f"C04:built-sequence-roundtrip-raises:{codec}:c08-{name}:{type(e).__name__}", f"{chosen}: {e}"[:220]))
         # exporting WITH default values for the variables (and default traps for a mappable register): same document plus the values
         valsA = TV.var_values(A)
         if valsA is not None and (valsA or qmap):
@@ -762,6 +781,15 @@ def run_case_prog(case):
                         out.append((f"C04:decoded-build-differs:{codec}:{name}:{_diff(s1, s2)}{idt}", f"{case} assignment {an}"))
                 if dec.is_parametrized() != seq.is_parametrized() or sorted(dec.declared_variables) != sorted(seq.declared_variables):
                     out.append((f"C04:decoded-variables-differ:{codec}:{name}", f"{case}"))
+                # the channels the (still unbuilt) sequence declares: same names, same channel objects - also for the DMMs whose
+                # configuration is only stored
+                try:
+                    c1 = {n: (type(c).__name__, c) for n, c in cmp.declared_channels.items()}
+                    c2 = {n: (type(c).__name__, c) for n, c in dec.declared_channels.items()}
+                    if set(c1) != set(c2) or any(c1[n][1] != c2[n][1] for n in c1):
+                        out.append((f"C04:decoded-declared-channels-differ:{codec}:{name}", f"{case}: {sorted(c1)} vs {sorted(c2)}"))
+                except Exception as e:
+                    out.append((f"C04:declared-channels-raises:{codec}:{name}:{type(e).__name__}", f"{case}: {e}"[:200]))
             if dec.is_measured() != seq.is_measured() or (seq.is_measured() and dec.get_measurement_basis() != seq.get_measurement_basis()):
                 out.append((f"C04:measurement-differs:{codec}:{name}", f"{case}"))
     return out + [("@roundtrip", "")]
